@@ -89,6 +89,10 @@ def rand_value(rng, flag):
     if flag["values"] and rng.random() < 0.8:
         return rng.choice(flag["values"])
     if f in ("--output-template",):
+        if rng.random() < 0.04:
+            n = rng.choice([200, 2000, 20000, 30000])
+            return rng.choice(["{{ " + "(" * n + "1" + ")" * n + " }}", "{{ 1" + " + 1" * n + " }}", "{{ major" + " | abs" * min(n, 15000) + " }}",
+                               "{% if true %}" * min(n, 4000) + "x" + "{% endif %}" * min(n, 4000), "{{ " + "[" * n + "]" * n + " }}", "{{ " + "not " * n + "true }}"])
         return rng.choice(TEMPLATES)
     if f == "--schema-ron":
         return rng.choice(RONS) if rng.random() < 0.8 else ron.schema_to_ron(objgen.rand_schema(rng, ascii_only=False))
@@ -175,8 +179,21 @@ def judge(r, argv, st=None):
         loc = loc[loc.find("src/"):] if "src/" in loc else loc
         out.append(("panic@" + loc, "exit %s, stderr: %s" % (code, err.strip().splitlines()[0][:200] if err.strip() else "")))
         return out
-    if code is not None and code < 0:
-        out.append(("killed-by-signal", "terminated by signal %d" % -code))
+    if (code is not None and code < 0) or code == 134:
+        if "has overflowed its stack" in err:
+            tpl = ""
+            for i, a in enumerate(argv):
+                if a == "--output-template" and i + 1 < len(argv):
+                    tpl = argv[i + 1]
+                elif a.startswith("--output-template="):
+                    tpl = a.split("=", 1)[1]
+            if len(tpl) > 10000:
+                # recorded finding: Tera's recursive-descent parser has no depth limit
+                out.append(("abort-stack-overflow-in-template-parser", "stack overflow abort (exit %s) on a %d-character template" % (code, len(tpl))))
+                return out
+            out.append(("abort-stack-overflow", "stack overflow abort (exit %s): %s" % (code, err.strip()[:160])))
+            return out
+        out.append(("killed-by-signal", "terminated by signal %s" % (-code if code < 0 else code)))
         return out
     if code == 0:
         if LOGLINE.search(so):
@@ -462,6 +479,24 @@ def run(ctx):
         ctx.distinct_extra += r["n"]
         for sig, why, case in r["bad"]:
             ctx.refute(sig, why, case)
+    # resource-exhaustion probes: very deep / very long templates, RON and JSON documents
+    deep = []
+    for n in (1000, 20000, 30000):
+        deep.append((["render", "1.2.3", "--output-template", "{{ " + "(" * n + "1" + ")" * n + " }}"], None))
+        deep.append((["version", "--source", "none", "--tag-version", "1.0.0", "--output-template", "{{ 1" + " + 1" * n + " }}"], None))
+        deep.append((["version", "--source", "stdin"], "(schema: (core: [" + "(" * n + "], extra_core: [], build: []), vars: ())"))
+        deep.append((["version", "--source", "stdin"], "(schema: (core: [var(Major)], extra_core: [], build: []), vars: (major: Some(1), custom: " + "[" * n + "]" * n + "))"))
+        deep.append((["version", "--source", "none", "--tag-version", "1.0.0", "--custom", "[" * min(n, 20000) + "]" * min(n, 20000)], None))
+        deep.append((["version", "--source", "none", "--tag-version", "1.0.0", "--schema-ron", "(core: [" + "str(\"a\"), " * min(n, 5000) + "], extra_core: [], build: [])"], None))
+        deep.append((["check", "1.0.0-" + "a." * min(n, 30000) + "a"], None))
+        deep.append((["render", "1.0+" + "a." * min(n, 30000) + "a", "--output-format", "semver"], None))
+    for argv, stdin in deep:
+        r = core.run_zerv(ctx.bins, argv, stdin=stdin, timeout=60)
+        ctx.evaluations += 1
+        ctx.count("resource_exhaustion_probes")
+        for sig, why in judge(r, argv):
+            if sig != "__timeout__":
+                ctx.refute(sig, why, dict(kind="fuzz", argv=[a if len(a) < 200 else a[:80] + "...<%d chars>" % len(a) for a in argv], stdin=(stdin or "")[:100], stdin_is_bytes=False))
     nrep = 5 if quick else 48
     calls = set()
     for r in core.pmap(work_faults, [(ctx.bins, "%s/%d" % (ctx.prop, ctx.seed), i, ctx.tmp) for i in range(nrep)]):
